@@ -60,8 +60,9 @@ def cache_put(key, val):
 def verus_pass(vacuity, seed_args=None, tag="", extracted=None):
     """one assemble + verus run; returns a JSON-able summary"""
     force = {}
-    for _round in range(4):
-        A = vxlib.assemble(vacuity=vacuity, extracted=extracted, force_external=force)
+    drop = {}
+    for _round in range(6):
+        A = vxlib.assemble(vacuity=vacuity, extracted=extracted, force_external=force, drop_contract=drop)
         name = ("vacuity" if vacuity else "opaque_verif") + tag + ".rs"
         path = vxlib.write_file(A, name)
         res = vxlib.run_verus(path, extra=seed_args)
@@ -71,6 +72,12 @@ def verus_pass(vacuity, seed_args=None, tag="", extracted=None):
         new = {k: v for k, v in A.hard_fns.items() if k not in force}
         if hard and new and len(A.hard_fns) >= 1:
             force.update(new)
+            continue
+        # still a type error inside a function whose body is already gone: its CONTRACT no longer type-checks (changed signature / fields).
+        # Drop the contract too: the function becomes one without contract (its callers' failures are "needs contract": undecided)
+        again = {k: v for k, v in A.hard_fns.items() if k in force and k not in drop}
+        if hard and again:
+            drop.update(again)
             continue
         break
     times = vxlib.fn_times(res)
@@ -82,7 +89,7 @@ def verus_pass(vacuity, seed_args=None, tag="", extracted=None):
         "failed_clauses": {f"{k[0]}|{k[1]}": v[:2] for k, v in fc.items()},
         "failed_fns": {k: v[:3] for k, v in ff.items()},
         "panic_fns": {k: v[:3] for k, v in getattr(A, "panic_fns", {}).items()},
-        "calls_uncontracted": A.calls_uncontracted,
+        "calls_uncontracted": A.calls_uncontracted, "lost_contracts": A.lost_contracts,
         "failed_theorems": {k: v[:2] for k, v in tf.items()},
         "hard": hard[:10], "rlimit": rl[:10],
         "contracted": A.contracted, "uncontracted": A.uncontracted, "external": A.external, "refused": A.refused,
@@ -184,10 +191,10 @@ def run_kani(crate, harness, timeout=1800, extra_args=None):
     return res
 
 
-def run_kani_many(items, jobs=4):
+def run_kani_many(items, jobs=6, timeout=1800):
     out = []
     with concurrent.futures.ThreadPoolExecutor(max_workers=jobs) as ex:
-        futs = [ex.submit(run_kani, c, h) for (c, h) in items]
+        futs = [ex.submit(run_kani, c, h, timeout) for (c, h) in items]
         for f in futs:
             out.append(f.result())
     return out
@@ -343,7 +350,9 @@ def check_property(pid, tier, seed):
         undecided = []
         for r in refs:
             fn, lab = r.split("|", 1)
-            if lab == "<missing>":
+            if fn in main.get("lost_contracts", []):
+                undecided.append(f"LOST-ANCHOR: function {fn} no longer exists in the tree (its contract has nothing to attach to)")
+            elif lab == "<missing>":
                 undecided.append(f"function {fn} is not under contract")
             elif fn in main["refused"]:
                 undecided.append(f"function {fn} could not be verified ({'; '.join(main['refused'][fn])[:200]}): clause {lab} undecided")
@@ -407,7 +416,9 @@ def check_property(pid, tier, seed):
         kani_items = list(alt.get("kani", {}).get("quick", []))
         if tier == "thorough":
             kani_items += alt.get("kani", {}).get("thorough", [])
-        kres = run_kani_many(kani_items) if kani_items else []
+        # every harness of the quick tier finishes within 100 s on the unchanged tree; a harness that needs more than 10 minutes on a changed
+        # tree has left the solver's reach (undecided, decided on the real code), it is not waited for
+        kres = run_kani_many(kani_items, timeout=(600 if tier == "quick" else 1800)) if kani_items else []
         for kr in kres:
             if kr["status"] == "failure":
                 failed.append(("kani", f"{kr['crate']}::{kr['harness']}", "; ".join(kr["failed_checks"]) or kr["tail"][-600:]))
